@@ -2,6 +2,14 @@ import numpy as np
 import torch
 
 
+def get_num_classes(dataset):
+    # binary datasets (labels 0/1) announce their class shape as (1,) -> 2 classes
+    n_classes = dataset.getdim_class()
+    if n_classes == 1:
+        n_classes = 2
+    return n_classes
+
+
 def get_class_counts(classes, n_classes):
     if n_classes == 1:
         n_classes = 2
@@ -35,6 +43,6 @@ def get_class_counts_and_indices(dataset):
     classes = np.array([dataset.getitem_class(i) for i in range(len(dataset))])
     counts, _ = get_class_counts(classes=classes, n_classes=dataset.getdim_class())
     indices = []
-    for i in range(dataset.getdim_class()):
+    for i in range(get_num_classes(dataset)):
         indices.append((classes == i).nonzero()[0])
     return counts, indices
